@@ -17,6 +17,7 @@ import (
 	"net"
 	"net/http"
 	"net/url"
+	"strings"
 	"sync"
 	"sync/atomic"
 	"time"
@@ -145,6 +146,32 @@ func (b *idBitmap) Release(id uint16) {
 			return
 		}
 	}
+}
+
+// ErrDNSQuestionMismatch reports an upstream answer whose question section does
+// not echo the question that was asked (RFC 5452 section 9.1): a late answer on a
+// reused socket or pipeline ID, a duplicate, or a forged packet.
+var ErrDNSQuestionMismatch = errors.New("dns response does not answer the question asked")
+
+// dnsResponseAnswersQuery reports whether resp echoes the (single) question of the
+// packed query. Queries that do not carry exactly one question are not judged.
+func dnsResponseAnswersQuery(query []byte, resp *dnsmessage.Msg) bool {
+	if resp == nil || len(query) < 12 || binary.BigEndian.Uint16(query[4:6]) != 1 {
+		return true
+	}
+	name, off, err := dnsmessage.UnpackDomainName(query, 12)
+	if err != nil || off+4 > len(query) {
+		return true
+	}
+	if len(resp.Question) == 0 {
+		// Some servers drop the question from error replies; nothing gets cached.
+		return resp.Rcode != dnsmessage.RcodeSuccess
+	}
+	q := resp.Question[0]
+	return len(resp.Question) == 1 &&
+		strings.EqualFold(q.Name, name) &&
+		q.Qtype == binary.BigEndian.Uint16(query[off:off+2]) &&
+		q.Qclass == binary.BigEndian.Uint16(query[off+2:off+4])
 }
 
 type DnsForwarder interface {
@@ -1180,6 +1207,17 @@ func (d *DoUDP) ForwardDNS(ctx context.Context, data []byte) (*dnsmessage.Msg, e
 			badConn = true
 			return nil, err
 		}
+		if !dnsResponseAnswersQuery(data, &msg) {
+			// Right ID, wrong question: a late answer to an earlier borrower of
+			// this socket (or a forgery). Keep waiting for our own answer.
+			staleResponses++
+			if staleResponses > maxStaleResponses {
+				udpPool.discard(conn)
+				badConn = true
+				return nil, fmt.Errorf("too many stale UDP DNS responses")
+			}
+			continue
+		}
 		if msg.Truncated {
 			return &msg, ErrDNSTruncated
 		}
@@ -1435,6 +1473,12 @@ func (pc *pipelinedConn) RoundTrip(ctx context.Context, data []byte) (*dnsmessag
 			pc.Close()
 		}
 		return nil, err
+	}
+	if !dnsResponseAnswersQuery(data, msg) {
+		// Duplicate or misrouted answer on a recycled pipeline ID: the stream can
+		// no longer be trusted, same treatment as a timeout.
+		pc.Close()
+		return nil, ErrDNSQuestionMismatch
 	}
 
 	return msg, nil
